@@ -2,7 +2,8 @@
    op C07.parse  input: the text in hex   observed: the Go parser's tree / error chain
      model  = rendering of Parser.parse_text on the same bytes
      spec   = wf_tree_b && cover_b && wf_leaves_b && wf_keywords_b && wf_separators_b (&& determined_b, which they imply: C07_specs_determine) on the OBSERVED tree, err_in_bounds_b on the
-              observed chain
+              observed chain, and on the observed "@line:col" of every error of the chain (what Range.Location() rendered):
+              = location text End, loc_inside_b, offset_of = End (Spec/LocationSpec.v) -> FAIL:location ...
    op C07.cls    input: "lo hi"           observed: L/D/- per rune (unicode.IsLetter/IsDigit) *)
 open Drv_util
 
@@ -123,9 +124,21 @@ let kind_code = function
   | K.ScanM.KStr -> "str" | K.ScanM.KAlt -> "alt" | K.ScanM.KReadN -> "readn" | K.ScanM.KDup -> "dup" | K.ScanM.KEmpty -> "empty"
   | K.ScanM.KOther -> "other" | K.ScanM.KWhile d -> "w:" ^ desc_code d
 
-let render_errs (es : K.ScanM.err list) : string =
+(* Spec/LocationSpec.location: Range.Location() for End = the given offset.  The errors of a
+   chain mostly share their End, so the last result is remembered. *)
+let location_memo text =
+  let last = ref None in
+  fun (e : K.z) ->
+    match !last with
+    | Some (e', r) when e' = e -> r
+    | _ -> let r = K.location text e in last := Some (e, r); r
+
+let render_errs text (es : K.ScanM.err list) : string =
+  let loc = location_memo text in
   "ERR" ^ String.concat "" (List.map (fun (e : K.ScanM.err) ->
-    Printf.sprintf " (%s %d %d)" (kind_code e.K.ScanM.er_kind) (int_of_z e.K.ScanM.er_start) (int_of_z e.K.ScanM.er_end)) es)
+    let (l, c) = loc e.K.ScanM.er_end in
+    Printf.sprintf " (%s %d %d @%d:%d)" (kind_code e.K.ScanM.er_kind) (int_of_z e.K.ScanM.er_start) (int_of_z e.K.ScanM.er_end)
+      (int_of_z l) (int_of_z c)) es)
 
 (* ---- reading the observed rendering back ---- *)
 
@@ -207,10 +220,37 @@ let rd_directive = function
 let rd_file = function
   | [L (A "F" :: A s :: A e :: ds)] -> { K.SynM.f_range = rng s e; K.SynM.f_directives = List.map rd_directive ds }
   | _ -> failwith "file"
-let rd_errs (xs : sx list) : K.ScanM.err list =
+(* an observed error: its range and the rendered position "@line:col" *)
+let rd_errs (xs : sx list) : (K.ScanM.err * (K.z * K.z)) list =
   List.map (function
-    | L [A _; A s; A e] -> { K.ScanM.er_kind = K.ScanM.KEmpty; K.ScanM.er_start = zi s; K.ScanM.er_end = zi e }
+    | L [A _; A s; A e; A loc] ->
+      let lc = Scanf.sscanf loc "@%d:%d%!" (fun l c -> (z_of_int l, z_of_int c)) in
+      ({ K.ScanM.er_kind = K.ScanM.KEmpty; K.ScanM.er_start = zi s; K.ScanM.er_end = zi e }, lc)
     | _ -> failwith "err") xs
+
+(* the verdict on the rendered positions of an observed chain (Spec/LocationSpec.v):
+   every position is what Location() computes for the error's End (location), exists in the
+   text (loc_inside_b) and, computed back from the text, denotes the byte End (offset_of) *)
+let locations_verdict text (es : (K.ScanM.err * (K.z * K.z)) list) : string option =
+  let loc = location_memo text in
+  let last_ok = ref None in
+  let rec go = function
+    | [] -> None
+    | ((e : K.ScanM.err), (l, c)) :: rest ->
+      let en = e.K.ScanM.er_end in
+      if (match !last_ok with Some (en', l', c') -> en' = en && l' = l && c' = c | None -> false) then go rest
+      else if not (K.loc_inside_b text (l, c)) then
+        Some (Printf.sprintf "FAIL:location %d:%d rendered for byte %d is not inside the input" (int_of_z l) (int_of_z c) (int_of_z en))
+      else
+        let (ml, mc) = loc en in
+        if not (ml = l && mc = c) then
+          Some (Printf.sprintf "FAIL:location %d:%d rendered for byte %d, Location() is %d:%d" (int_of_z l) (int_of_z c) (int_of_z en)
+                  (int_of_z ml) (int_of_z mc))
+        else if not (K.offset_of text (l, c) = en) then
+          Some (Printf.sprintf "FAIL:location %d:%d rendered for byte %d denotes byte %d (End is not at a rune)" (int_of_z l) (int_of_z c)
+                  (int_of_z en) (int_of_z (K.offset_of text (l, c))))
+        else begin last_ok := Some (en, l, c); go rest end in
+  go es
 
 let starts_with p s = String.length s >= String.length p && String.sub s 0 (String.length p) = p
 
@@ -220,7 +260,7 @@ let () =
     let model =
       match K.SynM.parse_text K.UnicodeM.is_letter K.UnicodeM.is_digit text with
       | K.SynM.ParseOk f -> render_file f
-      | K.SynM.ParseErr es -> render_errs es
+      | K.SynM.ParseErr es -> render_errs text es
       | K.SynM.ParseFuel -> "OUTOFFUEL" in
     let spec =
       if starts_with "PANIC" obs then "FAIL:panic"
@@ -228,7 +268,9 @@ let () =
         match (try Some (rd_errs (parse_sx (String.sub obs 3 (String.length obs - 3)))) with _ -> None) with
         | None -> "FAIL:unreadable-error-chain"
         | Some [] -> "FAIL:empty-error-chain"
-        | Some es -> if K.err_in_bounds_b text es then "ok" else "FAIL:err_in_bounds_b"
+        | Some es ->
+          if not (K.err_in_bounds_b text (List.map fst es)) then "FAIL:err_in_bounds_b"
+          else (match locations_verdict text es with Some v -> v | None -> "ok")
       end else begin
         match (try Some (rd_file (parse_sx obs)) with _ -> None) with
         | None -> "FAIL:unreadable-tree"
